@@ -34,11 +34,21 @@ type CheckpointHandle struct {
 // Add creates a new checkpoint, taking ownership of the LevelList reference.
 // Checkpoint is responsible for the LevelList and WAL cleanup when destroyed.
 func (cl *CheckpointList) Add(ckptID uint64, ll *sst.LevelList, w *wal.Writer, lastSeqNum uint64) {
+	// Index the table files the checkpoint retains so that IncludesTable can
+	// answer for it, exactly like for a checkpoint loaded from a document.
+	tableURISet := make(map[string]struct{})
+	for level := range ll.DescendLevels() {
+		for t := range level.AllTables() {
+			tableURISet[t.URI()] = struct{}{}
+		}
+	}
+
 	cp := &Checkpoint{
-		ID:         ckptID,
-		Levels:     ll,
-		WALs:       []wal.Handle{w.Handle(ll.LatestSeqNum)},
-		LastSeqNum: lastSeqNum,
+		ID:          ckptID,
+		Levels:      ll,
+		WALs:        []wal.Handle{w.Handle(ll.LatestSeqNum)},
+		tableURIset: tableURISet,
+		LastSeqNum:  lastSeqNum,
 	}
 	cl.checkpoints = append(cl.checkpoints, cp)
 }
